@@ -477,7 +477,7 @@ pub fn prop() -> Prop<ShutCase> {
             "missed liveness bounds count as violations only after a fast calibration round trip on an idle second server",
         ],
         needs_shim: false,
-        budget: |t| t.pick(4800, 60000),
+        budget: |t| t.pick(16000, 60000),
         shards: |_| 16,
         strategy,
         exec,
